@@ -72,7 +72,7 @@ func RunC13(ch *core.Chooser, env *Env) *Outcome {
 			return f, ""
 		}
 		f := &freshAnswer{}
-		c, err := sub.Clone()
+		c, err := sub.Clone(false)
 		if err != nil {
 			return nil, "clone: " + err.Error()
 		}
